@@ -575,6 +575,26 @@ func c09Gen(r *rand.Rand, tier string, i int) any {
 		}
 		in.Rules = append(in.Rules, ru)
 	}
+	// an integer field (every wire encoding of it appears among the variants) against a
+	// NON-INTEGRAL float rule value next to it, all ordering operators, untyped and typed
+	var ints []c08Pooled
+	for _, pv := range pool {
+		if pv.V.K == "int" && pv.V.I > -1<<51 && pv.V.I < 1<<51 {
+			ints = append(ints, pv)
+		}
+	}
+	if len(ints) > 0 && r.Intn(10) < 6 {
+		pv := ints[r.Intn(len(ints))]
+		f := float64(pv.V.I) + []float64{0.5, -0.5, 1.5, 1e-9, -1e-9, 0.25, -1.5}[r.Intn(7)]
+		field := pv.F
+		if r.Intn(4) == 0 {
+			field = "root." + field
+		}
+		c := c08Cond{Field: field, Op: []string{"<", "<=", ">", ">=", "=", "!="}[r.Intn(6)], Val: rvVal{K: "f", F: f},
+			Dt: []string{"", "", "", "float", "int"}[r.Intn(5)]}
+		ru := c08Rule{Name: "frac", Rate: 1, Drop: r.Intn(2) == 0, Scope: []string{"", "span"}[r.Intn(2)], Conds: []c08Cond{c}}
+		in.Rules = append([]c08Rule{ru}, in.Rules...)
+	}
 	keyPool := []string{"a", "b", "c", "http.status", "root.a", "root.b", "root.http.status", "zz"}
 	nf := 1 + r.Intn(3)
 	for k := 0; k < nf; k++ {
